@@ -1,2 +1,620 @@
-import Momo.Model.Val
-/-! placeholder, replaced below -/
+import Momo.Proof.ValWrap
+import Momo.Proof.ValLedger
+/-!
+# C14 — Containers are regular values: deep copies, emptying moves, exact swaps
+
+Property theorems only. Model: `Momo/Model/Val.lean` (a heap of blocks that remember the allocating memory
+manager; container objects = manager + handles; the special member functions of the native containers and
+of the stdish wrappers as sequences of primitive steps). Lemmas: `Momo/Proof/Val*.lean`.
+
+Statement (properties.jsonl): for every momo container and stdish wrapper, a copy holds equal contents and
+is independent of the original (mutating or destroying either never affects the other); a move leaves the
+target with exactly the former contents without copy-constructing any movable element and leaves the source
+empty, destructible, clearable, swappable and assignable (and fully usable again once assigned; array-like
+containers are reusable immediately); self-assignment changes nothing and swap exchanges contents exactly.
+With stateful memory managers or allocators, each container keeps allocating and freeing through the manager
+dictated by the std propagation rules, and a move between unequal managers transfers the elements one by one.
+
+Reading guide. `w.objs i = some c`: the program variable `i` is a live container object `c`; `contents H c`:
+what iteration over `c` yields in heap `H`; `c.owned`: the heap blocks `c` points to; `WF w`: every block an
+object points to is live, was allocated by the manager the object holds, and is pointed to by no other object.
+`cfg : Cfg` is universally quantified everywhere: all container kinds (`Kind`: internal capacity, crew pointer,
+constructor blocks, trivially relocatable / movable / copy-only elements, Array-style or swap-style assignment,
+copy layout) × the manager's copy constructor `sel` × the allocator traits POCCA / POCMA / POCS / is_empty.
+A hypothesis `step cfg w op = some (w1, evs)` says that the operation is defined in `w` (slots dead / alive as
+the operation needs them); definedness itself is the subject of the `C14_null_*` theorems.
+`RebuildOk cfg.k`: the block layout chosen by the copy constructor keeps the elements and their order — proved
+for the layouts of all driven kinds (`C14_rebuild_layouts`).
+-/
+namespace Momo.Val
+
+/-! ## (a) copies: equal contents, disjoint ownership, independence -/
+
+/-- **C14 "a copy holds equal contents and is independent of the original"**, copy constructor `C b(a)`:
+the copy `t` iterates over the same elements as the source `s`; `s` keeps its handles and contents; `t` holds
+the manager the manager's copy constructor selects, is a fully usable object, and **shares no block with any other
+live object**; every block of `t` was obtained from its own manager; nothing is freed, no element is moved
+(elements are copy-constructed); no third object changes; the ownership invariant is kept. -/
+theorem C14_copy_ctor (cfg : Cfg) (hrb : RebuildOk cfg.k) {w w1 : World} {evs : List Ev} (wf : WF w) (b a : Nat)
+    (h : step cfg w (.copyCtor b a) = some (w1, evs)) :
+    ∃ s t m, w.objs a = some s ∧ s.mgr = some m ∧ w.objs b = none ∧ w1.objs a = some s ∧ w1.objs b = some t ∧
+      contents w1.heap t = contents w.heap s ∧ contents w1.heap s = contents w.heap s ∧
+      t.mgr = some (cfg.sel m) ∧ usable cfg.k t = true ∧
+      (∀ x c, x ≠ b → w1.objs x = some c → ∀ h ∈ t.owned, h ∉ c.owned) ∧
+      (∀ x, x ≠ b → w1.objs x = w.objs x) ∧
+      (∀ x c, x ≠ b → w.objs x = some c → contents w1.heap c = contents w.heap c) ∧ WF w1 ∧
+      (∀ e, Ev.move e ∉ evs) ∧ (∀ m' h', Ev.free m' h' ∉ evs) ∧ (∀ m' h', Ev.alloc m' h' ∈ evs → m' = cfg.sel m) := by
+  simp only [step, expand] at h
+  cases ha : allocOf w a with
+  | none => simp [ha] at h
+  | some m =>
+    simp only [ha, run_single] at h
+    obtain ⟨s0, hs0, hm0⟩ := allocOf_some ha
+    obtain ⟨s, t, hs, hb, h1, h2, h3, h4, h5, h6, h7, h8, h9, h10, h11, h12, h13⟩ :=
+      copyPrim_regular cfg hrb wf b a (cfg.sel m) h
+    rw [hs0] at hs; cases hs
+    exact ⟨s0, t, m, hs0, hm0, hb, h1, h2, h3, h4, h5, h6, h7, h8, h9, h10, h11, h12, h13⟩
+
+/-- the same for `C b(a, MemManager(m))` and the wrappers' `W b(a, alloc)`: the copy allocates through `m` -/
+theorem C14_copy_ctor_with_manager (cfg : Cfg) (hrb : RebuildOk cfg.k) {w w1 : World} {evs : List Ev} (wf : WF w)
+    (b a : Nat) (m : Mgr) (h : step cfg w (.copyCtorM b a m) = some (w1, evs)) :
+    ∃ s t, w.objs a = some s ∧ w.objs b = none ∧ w1.objs a = some s ∧ w1.objs b = some t ∧
+      contents w1.heap t = contents w.heap s ∧ contents w1.heap s = contents w.heap s ∧
+      t.mgr = some m ∧ usable cfg.k t = true ∧
+      (∀ x c, x ≠ b → w1.objs x = some c → ∀ h ∈ t.owned, h ∉ c.owned) ∧
+      (∀ x, x ≠ b → w1.objs x = w.objs x) ∧
+      (∀ x c, x ≠ b → w.objs x = some c → contents w1.heap c = contents w.heap c) ∧ WF w1 ∧
+      (∀ e, Ev.move e ∉ evs) ∧ (∀ m' h', Ev.free m' h' ∉ evs) ∧ (∀ m' h', Ev.alloc m' h' ∈ evs → m' = m) := by
+  simp only [step, expand, run_single] at h
+  exact copyPrim_regular cfg hrb wf b a m h
+
+/-- **C14 "mutating or destroying either never affects the other"**, general form (frame property): in a
+well-formed world, an object `x` that a history of operations never names (neither as an operand nor as the slot
+of a temporary) keeps its handles, the contents of every one of its blocks, and hence its contents — whatever the
+operations do to all other objects (mutation with any resulting layout, Clear, assignment, swap, destruction). -/
+theorem C14_independent (cfg : Cfg) {w w' : World} (wf : WF w) (ops : List Op) (h : runOps cfg w ops = some w')
+    (x : Nat) (c : Cont) (hx : ∀ op ∈ ops, x ∉ op.writes cfg) (hc : w.objs x = some c) :
+    w'.objs x = some c ∧ contents w'.heap c = contents w.heap c ∧ layout w'.heap c = layout w.heap c :=
+  untouched_runOps cfg wf ops h x c hx hc
+
+/-- **copy, then anything**: after `C b(a)`, every history that does not name `a` leaves `a` with its original
+contents, and every history that does not name `b` leaves `b` with the original contents of `a`. -/
+theorem C14_copy_independent (cfg : Cfg) (hrb : RebuildOk cfg.k) {w w1 : World} {evs : List Ev} (wf : WF w) (b a : Nat)
+    (h : step cfg w (.copyCtor b a) = some (w1, evs)) :
+    ∃ s t, w.objs a = some s ∧ w1.objs a = some s ∧ w1.objs b = some t ∧
+      (∀ ops w2, runOps cfg w1 ops = some w2 → (∀ op ∈ ops, a ∉ op.writes cfg) →
+        w2.objs a = some s ∧ contents w2.heap s = contents w.heap s) ∧
+      (∀ ops w2, runOps cfg w1 ops = some w2 → (∀ op ∈ ops, b ∉ op.writes cfg) →
+        w2.objs b = some t ∧ contents w2.heap t = contents w.heap s) := by
+  obtain ⟨s, t, m, hs, _, _, h1a, h1b, hct, hcs, _, _, _, _, _, wf1, _⟩ := C14_copy_ctor cfg hrb wf b a h
+  refine ⟨s, t, hs, h1a, h1b, ?_, ?_⟩
+  · intro ops w2 hr hn
+    obtain ⟨e, c2, _⟩ := untouched_runOps cfg wf1 ops hr a s hn h1a
+    exact ⟨e, c2.trans hcs⟩
+  · intro ops w2 hr hn
+    obtain ⟨e, c2, _⟩ := untouched_runOps cfg wf1 ops hr b t hn h1b
+    exact ⟨e, c2.trans hct⟩
+
+/-- **"destroying either never affects the other"**: after `C b(a)` both destructors are defined; `~a` leaves `b`
+holding the original contents, `~b` leaves `a` holding them; the world stays well-formed. -/
+theorem C14_copy_destroy_either (cfg : Cfg) (hrb : RebuildOk cfg.k) {w w1 : World} {evs : List Ev} (wf : WF w) (b a : Nat)
+    (h : step cfg w (.copyCtor b a) = some (w1, evs)) :
+    ∃ s t, w.objs a = some s ∧ w1.objs a = some s ∧ w1.objs b = some t ∧
+      (∃ w2 e2, step cfg w1 (.destroy a) = some (w2, e2) ∧ w2.objs a = none ∧ w2.objs b = some t ∧
+        contents w2.heap t = contents w.heap s ∧ WF w2) ∧
+      (∃ w2 e2, step cfg w1 (.destroy b) = some (w2, e2) ∧ w2.objs b = none ∧ w2.objs a = some s ∧
+        contents w2.heap s = contents w.heap s ∧ WF w2) := by
+  obtain ⟨s, t, m, hs, hsm, hb, h1a, h1b, hct, hcs, htm, _, _, _, _, wf1, _⟩ := C14_copy_ctor cfg hrb wf b a h
+  have hab : a ≠ b := by intro e; subst e; rw [hb] at hs; cases hs
+  refine ⟨s, t, hs, h1a, h1b, ?_, ?_⟩
+  · obtain ⟨r, hr⟩ := Option.isSome_iff_exists.mp (destroy_defined cfg w1 a s h1a (by simp [hsm]))
+    obtain ⟨w2, e2⟩ := r
+    obtain ⟨wf2, f2⟩ := step_sound cfg wf1 _ hr
+    obtain ⟨e, c2⟩ := f2.contents (x := b) (by simpa [Op.writes] using fun e => hab e.symm) h1b
+    have hd : w2.objs a = none := by
+      simp only [step, expand, run_single] at hr
+      obtain ⟨_, _, ho, _⟩ := destroy_inv hr
+      rw [ho]; simp
+    exact ⟨w2, e2, hr, hd, e, c2.trans hct, wf2⟩
+  · obtain ⟨r, hr⟩ := Option.isSome_iff_exists.mp (destroy_defined cfg w1 b t h1b (by simp [htm]))
+    obtain ⟨w2, e2⟩ := r
+    obtain ⟨wf2, f2⟩ := step_sound cfg wf1 _ hr
+    obtain ⟨e, c2⟩ := f2.contents (x := a) (by simpa [Op.writes] using hab) h1a
+    have hd : w2.objs b = none := by
+      simp only [step, expand, run_single] at hr
+      obtain ⟨_, _, ho, _⟩ := destroy_inv hr
+      rw [ho]; simp
+    exact ⟨w2, e2, hr, hd, e, c2.trans hcs, wf2⟩
+
+/-- **`i = j`, copy assignment of the native containers** (`*this = Array(array)` / `C(x).Swap(*this)`): afterwards
+`i` holds a usable object with contents equal to `j`'s, allocating through a manager copied from `j`'s; `j` is
+unchanged; the result is well-formed (so `i` and `j` share no block). -/
+theorem C14_copy_assign (cfg : Cfg) (hrb : RebuildOk cfg.k) {w w1 : World} {evs : List Ev} (wf : WF w)
+    (i j : Nat) (hij : i ≠ j) (ci cj : Cont) (hi : w.objs i = some ci) (hj : w.objs j = some cj)
+    (h : step cfg w (.copyAssign i j) = some (w1, evs)) :
+    ∃ t, w1.objs i = some t ∧ t.mgr = cj.mgr.map cfg.sel ∧ usable cfg.k t = true ∧
+      contents w1.heap t = contents w.heap cj ∧ w1.objs j = some cj ∧ contents w1.heap cj = contents w.heap cj ∧
+      (∀ h ∈ t.owned, h ∉ cj.owned) ∧ WF w1 := by
+  obtain ⟨t, h1, h2, h3, h4, h5, h6⟩ := copyAssign_spec cfg hrb wf i j hij ci cj hi hj h
+  have wf1 := (step_sound cfg wf _ h).1
+  exact ⟨t, h1, h2, h3, h4, h5, h6, fun x hx => wf1.disj i j t cj hij h1 h5 x hx, wf1⟩
+
+/-! ## (b) moves: exact, copy-free, emptying; the moved-from state is a total state -/
+
+/-- **C14 "a move leaves the target with exactly the former contents without copy-constructing any movable
+element and leaves the source empty"**, move constructor `C b(std::move(a))`: `b` *is* the former object (same
+blocks, same manager, heap untouched, hence the very same contents); `a` is left in the null state (no block, no
+internal item, contents `[]`); no block is allocated or freed; if the element type is movable no element is
+copy-constructed; only the items of an `Array`'s internal buffer are relocated — for every other state there is no
+element event at all. -/
+theorem C14_move_ctor_exact (cfg : Cfg) {w w1 : World} {evs : List Ev} (b a : Nat)
+    (h : step cfg w (.moveCtor b a) = some (w1, evs)) :
+    ∃ s, w.objs a = some s ∧ w.objs b = none ∧ w1.heap = w.heap ∧ w1.objs b = some s ∧
+      contents w1.heap s = contents w.heap s ∧
+      w1.objs a = some (nullOf cfg.k s) ∧ IsNull (nullOf cfg.k s) ∧ contents w1.heap (nullOf cfg.k s) = [] ∧
+      (∀ x, x ≠ a → x ≠ b → w1.objs x = w.objs x) ∧
+      (cfg.k.movable = true → ∀ e, Ev.copy e ∉ evs) ∧ (∀ m h, Ev.alloc m h ∉ evs) ∧ (∀ m h, Ev.free m h ∉ evs) ∧
+      (s.inl = [] → evs = []) := by
+  obtain ⟨s, h1, h2, h3, h4, h5, h6, rfl⟩ := moveCtor_spec cfg b a h
+  refine ⟨s, h1, h2, h3, h4, by rw [h3], h5, nullOf_isNull _ _, contents_null _ _ _, h6, ?_, ?_, ?_, ?_⟩
+  · exact fun hm e => copy_not_mem_relocEvs cfg.k hm _ e
+  · exact fun m h => alloc_not_mem_relocEvs cfg.k _ m h
+  · exact fun m h => free_not_mem_relocEvs cfg.k _ m h
+  · intro hn; rw [hn]; exact relocEvs_nil _
+
+/-- **move assignment `i = std::move(j)`** (both source forms: `Array::Data::operator=(Data&&)` and
+`C(std::move(j)).Swap(*this)`): `i` becomes exactly the former `j` (same handles and manager, contents unchanged),
+`j` is left in the null state, the former blocks of `i` — and only those — are released, through the manager `i`
+held; nothing is allocated; no movable element is copy-constructed; nothing else changes. -/
+theorem C14_move_assign_exact (cfg : Cfg) {w w1 : World} {evs : List Ev} (wf : WF w) (i j : Nat) (hij : i ≠ j)
+    (ci cj : Cont) (hi : w.objs i = some ci) (hj : w.objs j = some cj)
+    (h : step cfg w (.moveAssign i j) = some (w1, evs)) :
+    w1.objs i = some cj ∧ contents w1.heap cj = contents w.heap cj ∧
+      w1.objs j = some (nullOf cfg.k cj) ∧ IsNull (nullOf cfg.k cj) ∧ contents w1.heap (nullOf cfg.k cj) = [] ∧
+      (∀ x, x ≠ i → x ≠ j → w1.objs x = w.objs x) ∧
+      (cfg.k.movable = true → ∀ e, Ev.copy e ∉ evs) ∧ (∀ m h, Ev.alloc m h ∉ evs) ∧
+      (∀ m h, Ev.free m h ∈ evs → ci.mgr = some m ∧ h ∈ ci.owned) ∧ WF w1 := by
+  obtain ⟨h1, h2, h3, h4, h5, h6, h7⟩ := moveAssign_spec cfg wf i j hij ci cj hi hj h
+  exact ⟨h1, h3, h2, nullOf_isNull _ _, contents_null _ _ _, h4, h5, h6, h7, (step_sound cfg wf _ h).1⟩
+
+/-- **"leaves the source … destructible"**: the destructor of an object in the null state is defined and does
+nothing but end the object (no block touched, no event). -/
+theorem C14_null_destroy (cfg : Cfg) (w : World) (i : Nat) (c : Cont) (hi : w.objs i = some c) (hn : IsNull c) :
+    step cfg w (.destroy i) = some (⟨w.heap, upd w.objs i none⟩, []) :=
+  destroy_null_step cfg w i c hi hn
+
+/-- **"… clearable"**: `Clear` of an object in the null state is defined (for every variant `keep`), changes
+nothing and leaves it in the null state (TreeSet / DataTable after repairs 7283f61, b5e50c3). -/
+theorem C14_null_clear (cfg : Cfg) (w : World) (i keep : Nat) (c : Cont) (hi : w.objs i = some c) (hn : IsNull c) :
+    ∃ w1, step cfg w (.clear i keep) = some (w1, []) ∧ w1.heap = w.heap ∧ (∀ x, x ≠ i → w1.objs x = w.objs x) ∧
+      ∃ c', w1.objs i = some c' ∧ IsNull c' ∧ c'.mgr = c.mgr :=
+  clear_null_step cfg w i keep c hi hn
+
+/-- **"swap exchanges contents exactly"** — and **"… swappable"**: for *any* two distinct live objects, in whatever
+state (the null state included, on either side), `i.Swap(j)` is defined, exchanges the two objects (handles,
+manager, internal items; the heap is untouched, so the contents are exchanged exactly), changes no other object,
+allocates and frees nothing and copy-constructs no movable element. -/
+theorem C14_swap_exact (cfg : Cfg) (w : World) (i j : Nat) (a b : Cont) (hij : i ≠ j)
+    (hi : w.objs i = some a) (hj : w.objs j = some b) (ht : w.objs cfg.t1 = none) :
+    ∃ w1 evs, step cfg w (.swap i j) = some (w1, evs) ∧
+      w1.heap = w.heap ∧ w1.objs i = some b ∧ w1.objs j = some a ∧
+      contents w1.heap b = contents w.heap b ∧ contents w1.heap a = contents w.heap a ∧
+      (∀ x, x ≠ i → x ≠ j → w1.objs x = w.objs x) ∧
+      (cfg.k.movable = true → ∀ e, Ev.copy e ∉ evs) ∧ (∀ m h, Ev.alloc m h ∉ evs) ∧ (∀ m h, Ev.free m h ∉ evs) := by
+  obtain ⟨w1, evs, h0, h1, h2, h3, h4, h5, h6, h7⟩ := swap_exact cfg w i j a b hij hi hj ht
+  exact ⟨w1, evs, h0, h1, h2, h3, by rw [h1], by rw [h1], h4, h5, h6, h7⟩
+
+/-- **"… and assignable (and fully usable again once assigned)"**, copy assignment to an object in the null state:
+`i = j` is defined for every source `j` that holds a manager, and afterwards `i` is a usable object holding `j`'s
+contents; being usable, every mutation of `i` is defined again. -/
+theorem C14_null_copy_assign (cfg : Cfg) (hrb : RebuildOk cfg.k) {w : World} (wf : WF w) (i j : Nat) (ci cj : Cont)
+    (hij : i ≠ j) (hi : w.objs i = some ci) (hn : IsNull ci) (hj : w.objs j = some cj) (hm : cj.mgr.isSome = true)
+    (ht : w.objs cfg.t1 = none) :
+    ∃ w1 evs t, step cfg w (.copyAssign i j) = some (w1, evs) ∧ w1.objs i = some t ∧ usable cfg.k t = true ∧
+      contents w1.heap t = contents w.heap cj ∧ w1.objs j = some cj ∧ contents w1.heap cj = contents w.heap cj ∧
+      ∀ inl cells cap, (step cfg w1 (.mutate i inl cells cap)).isSome = true := by
+  obtain ⟨r, hr⟩ := Option.isSome_iff_exists.mp (copyAssign_null_defined cfg w i j ci cj hij hi hn hj hm ht)
+  obtain ⟨w1, evs⟩ := r
+  obtain ⟨t, h1, _, h3, h4, h5, h6⟩ := copyAssign_spec cfg hrb wf i j hij ci cj hi hj hr
+  exact ⟨w1, evs, t, hr, h1, h3, h4, h5, h6, fun inl cells cap => mutate_defined cfg w1 i t h1 h3 inl cells cap⟩
+
+/-- move assignment to an object in the null state: `i = std::move(j)` is defined for every live `j`; `i` becomes the
+former `j` — in particular as usable as `j` was. -/
+theorem C14_null_move_assign (cfg : Cfg) {w : World} (wf : WF w) (i j : Nat) (ci cj : Cont)
+    (hij : i ≠ j) (hi : w.objs i = some ci) (hn : IsNull ci) (hj : w.objs j = some cj) (ht : w.objs cfg.t1 = none) :
+    ∃ w1 evs, step cfg w (.moveAssign i j) = some (w1, evs) ∧ w1.objs i = some cj ∧
+      contents w1.heap cj = contents w.heap cj ∧ w1.objs j = some (nullOf cfg.k cj) := by
+  obtain ⟨r, hr⟩ := Option.isSome_iff_exists.mp (moveAssign_null_defined cfg w i j ci cj hij hi hn hj ht)
+  obtain ⟨w1, evs⟩ := r
+  obtain ⟨h1, h2, h3, _⟩ := moveAssign_spec cfg wf i j hij ci cj hi hj hr
+  exact ⟨w1, evs, hr, h1, h3, h2⟩
+
+/-- **"array-like containers are reusable immediately"**: when the manager lives inside the object and no
+constructor block exists (Array, SegmentedArray, containers with a stateless inline crew), the moved-from object is
+an ordinary usable empty object: every mutation is defined on it at once. -/
+theorem C14_null_reusable_arraylike (cfg : Cfg) (hc : cfg.k.crewPtr = false) (ha : cfg.k.ctorAux = 0)
+    {w w1 : World} {evs : List Ev} (b a : Nat) (h : step cfg w (.moveCtor b a) = some (w1, evs))
+    (s : Cont) (hs : w.objs a = some s) (hm : s.mgr.isSome = true) :
+    w1.objs a = some (nullOf cfg.k s) ∧ usable cfg.k (nullOf cfg.k s) = true ∧
+      ∀ inl cells cap, (step cfg w1 (.mutate a inl cells cap)).isSome = true := by
+  obtain ⟨s', h1, _, _, _, h5, _⟩ := moveCtor_spec cfg b a h
+  rw [hs] at h1; cases h1
+  have hu := null_usable_inline cfg.k hc ha s hm
+  exact ⟨h5, hu, fun inl cells cap => mutate_defined cfg w1 a _ h5 hu inl cells cap⟩
+
+/-! ## (c) self-assignment and self-swap -/
+
+/-- **C14 "self-assignment changes nothing"**: `x = x` (native and wrapper forms), `x = std::move(x)` (native and
+wrapper forms) and `x.Swap(x)` leave the whole world — every object and every block — as it was. -/
+theorem C14_self_assign_id (cfg : Cfg) (w : World) (i : Nat) (c : Cont) (hi : w.objs i = some c)
+    (ht : w.objs cfg.t1 = none) (lay : Lay) (keep : Nat) :
+    step cfg w (.copyAssign i i) = some (w, []) ∧
+    (∃ evs, step cfg w (.moveAssign i i) = some (w, evs) ∧ (cfg.k.movable = true → ∀ e, Ev.copy e ∉ evs) ∧
+        (∀ m h, Ev.alloc m h ∉ evs) ∧ (∀ m h, Ev.free m h ∉ evs)) ∧
+    step cfg w (.wCopyAssign i i) = some (w, []) ∧
+    step cfg w (.wMoveAssign i i lay keep) = some (w, []) ∧
+    step cfg w (.swap i i) = some (w, []) := by
+  refine ⟨copyAssign_self cfg w i, ⟨_, moveAssign_self cfg w i c hi ht, ?_, ?_, ?_⟩, wCopyAssign_self cfg w i,
+    wMoveAssign_self cfg w i lay keep, ?_⟩
+  · intro hm e; split
+    · simp
+    · exact copy_not_mem_relocEvs cfg.k hm _ e
+  · intro m h; split
+    · simp
+    · exact alloc_not_mem_relocEvs cfg.k _ m h
+  · intro m h; split
+    · simp
+    · exact free_not_mem_relocEvs cfg.k _ m h
+  · cases hk : cfg.k.arrayStyle with
+    | true => exact swap_self_array cfg hk w i
+    | false => exact swap_self_ptr cfg hk w i c hi
+
+/-! ## (d) stateful managers: who allocates, who frees, and the element-wise move -/
+
+/-- **C14 "each container keeps allocating and freeing through the manager dictated by the std propagation
+rules"**, decision table: for every combination of `propagate_on_container_copy_assignment`,
+`propagate_on_container_move_assignment`, `propagate_on_container_swap`, `is_empty` and every pair of allocator
+identities, the allocator the wrappers end up with and the way they transfer the elements (`steal` / `elementwise`
+/ `copyAll`) are those of the standard's allocator-aware container requirements ([container.alloc.reqmts]:
+`a = t`, `a = rv`, `X(rv, m)`). Instances of an empty allocator type are all equal (hypothesis `he`). -/
+theorem C14_propagation_table (t : Traits) (dst src : Mgr) (he : t.isEmpty = true → dst = src) :
+    momoCopyAssign t dst src = stdCopyAssign t dst src ∧
+    momoMoveAssign t dst src = stdMoveAssign t dst src ∧
+    ∀ a, momoMoveCtorA src a = stdMoveCtorA src a := by
+  obtain ⟨pocca, pocma, pocs, isEmpty⟩ := t
+  refine ⟨?_, ?_, fun _ => rfl⟩
+  · cases isEmpty <;> cases pocca <;> simp_all [momoCopyAssign, stdCopyAssign]
+  · cases isEmpty <;> cases pocma <;> simp_all [momoMoveAssign, stdMoveAssign] <;>
+      (by_cases hds : dst = src <;> simp [hds, eq_comm])
+
+/-- `MemManagerStd::operator=(MemManagerStd&&)` / `MemManagerProxy::Assign`, all 16 combinations of
+(`is_nothrow_move_assignable`, POCMA, POCCA, POCS): the overload selected uses only an allocator operation that the
+allocator requirements forbid to throw for these traits, and whatever path is taken the destination afterwards has
+the identity of the source manager. -/
+theorem C14_manager_assign_table : ∀ nma pocma pocca pocs : Bool,
+    pathNoThrow nma pocma pocca pocs (assignPath nma pocma pocca pocs) = true ∧
+    ∀ dst src, pathResult dst src (assignPath nma pocma pocca pocs) = src := by
+  intro nma pocma pocca pocs
+  refine ⟨by revert nma pocma pocca pocs; decide, fun dst src => ?_⟩
+  cases assignPath nma pocma pocca pocs <;> rfl
+
+/-- **wrapper copy assignment `i = j`**, every trait combination: `i` afterwards is a usable object with `j`'s
+contents whose manager is the one the standard's table names (`j`'s if POCCA, else the one `i` had); `j` is
+unchanged; well-formedness of the result says that every block `i` now holds was allocated by that manager. -/
+theorem C14_wrapper_copy_assign (cfg : Cfg) (hrb : RebuildOk cfg.k) {w w1 : World} {evs : List Ev} (wf : WF w)
+    (i j : Nat) (hij : i ≠ j) (ci cj : Cont) (mi mj : Mgr) (hi : w.objs i = some ci) (hj : w.objs j = some cj)
+    (hmi : ci.mgr = some mi) (hmj : cj.mgr = some mj) (he : cfg.isEmpty = true → mi = mj)
+    (h : step cfg w (.wCopyAssign i j) = some (w1, evs)) :
+    ∃ t, w1.objs i = some t ∧
+      t.mgr = some (stdCopyAssign ⟨cfg.pocca, cfg.pocma, cfg.pocs, cfg.isEmpty⟩ mi mj).alloc ∧
+      usable cfg.k t = true ∧ contents w1.heap t = contents w.heap cj ∧
+      w1.objs j = some cj ∧ contents w1.heap cj = contents w.heap cj ∧
+      (∀ h ∈ t.owned, ∃ cell, w1.heap.get h = some cell ∧ some cell.mgr = t.mgr) ∧ WF w1 := by
+  obtain ⟨t, a, ha, h1, h2, h3, h4, h5, h6⟩ := wCopyAssign_spec cfg hrb wf i j hij ci cj hi hj h
+  have wf1 := (step_sound cfg wf _ h).1
+  have hta : a = (stdCopyAssign ⟨cfg.pocca, cfg.pocma, cfg.pocs, cfg.isEmpty⟩ mi mj).alloc := by
+    simp only [stdCopyAssign]
+    cases hE : cfg.isEmpty <;> cases hP : cfg.pocca <;>
+      simp_all [allocOf]
+  refine ⟨t, h1, by rw [h2, hta], h3, h4, h5, h6, ?_, wf1⟩
+  intro x hx
+  obtain ⟨cell, hg, hm⟩ := (wf1.ok i t h1).live x hx
+  exact ⟨cell, hg, hm.symm⟩
+
+/-- wrapper copy assignment **to a moved-from wrapper** (null crew pointer) when the allocator propagates on copy
+assignment or is empty — the case F15 leaves defined: `i` becomes a usable object with `j`'s allocator and contents. -/
+theorem C14_wrapper_copy_assign_to_moved_from (cfg : Cfg) (hrb : RebuildOk cfg.k) {w w1 : World} {evs : List Ev} (wf : WF w)
+    (i j : Nat) (hij : i ≠ j) (ci cj : Cont) (mj : Mgr) (hi : w.objs i = some ci) (hj : w.objs j = some cj)
+    (hmj : cj.mgr = some mj) (hp : (cfg.isEmpty || cfg.pocca) = true)
+    (h : step cfg w (.wCopyAssign i j) = some (w1, evs)) :
+    ∃ t, w1.objs i = some t ∧ t.mgr = some mj ∧ usable cfg.k t = true ∧ contents w1.heap t = contents w.heap cj ∧
+      w1.objs j = some cj ∧ contents w1.heap cj = contents w.heap cj ∧ WF w1 := by
+  obtain ⟨t, a, ha, h1, h2, h3, h4, h5, h6⟩ := wCopyAssign_spec cfg hrb wf i j hij ci cj hi hj h
+  have : a = mj := by
+    simp only [hp, if_true, allocOf, hj, Option.bind_some, hmj, Option.some.injEq] at ha
+    exact ha.symm
+  exact ⟨t, h1, by rw [h2, this], h3, h4, h5, h6, (step_sound cfg wf _ h).1⟩
+
+/-- **wrapper move construction with an equal allocator `W j(std::move(i), alloc)`, `alloc == i.get_allocator()`**:
+the nested container is moved — `j` is the former object, no element event for containers without internal buffer. -/
+theorem C14_wrapper_move_ctor_equal_steals (cfg : Cfg) {w w1 : World} {evs : List Ev} (j i : Nat) (a : Mgr) (lay : Lay)
+    (keep : Nat) (ha : allocOf w i = some a) (h : step cfg w (.wMoveCtorA j i a lay keep) = some (w1, evs)) :
+    ∃ s, w.objs i = some s ∧ w1.heap = w.heap ∧ w1.objs j = some s ∧ w1.objs i = some (nullOf cfg.k s) ∧
+      (cfg.k.movable = true → ∀ e, Ev.copy e ∉ evs) ∧ (∀ m h, Ev.alloc m h ∉ evs) ∧ (∀ m h, Ev.free m h ∉ evs) := by
+  have h' : step cfg w (.moveCtor j i) = some (w1, evs) := by
+    simpa [step, expand, createFrom, ha] using h
+  obtain ⟨s, h1, _, h3, h4, _, h6, _, _, _, h10, h11, h12, _⟩ := C14_move_ctor_exact cfg j i h'
+  exact ⟨s, h1, h3, h4, h6, h10, h11, h12⟩
+
+/-- full statement of the element-wise clause: the target ends up with the source's elements (as a multiset — the
+order inside an unordered container is not part of its value) -/
+def C14_unequal_move_elementwise : Prop :=
+  ∀ (cfg : Cfg) (w w1 : World) (evs : List Ev) (j i : Nat) (a ai : Mgr) (lay : Lay) (keep : Nat) (ci : Cont),
+    WF w → w.objs i = some ci → ci.mgr = some ai → ai ≠ a →
+    step cfg w (.wMoveCtorA j i a lay keep) = some (w1, evs) →
+    ∃ t, w1.objs j = some t ∧ (contents w1.heap t).Perm (contents w.heap ci) ∧
+      evs.filter isXfer = xferEvs cfg.k (contents w.heap ci)
+
+/-- **C14 "a move between unequal managers transfers the elements one by one"**, `W j(std::move(i), alloc)` with
+`alloc != i.get_allocator()` (`pvCreateArray / Set / Map / MultiMap`): there are exactly as many element
+constructions as the source has elements, one per element and in the source's iteration order — move constructions
+if the element type is movable; **no block changes owner**: every block of the target is new (handle ≥ the old
+heap limit) and obtained from `alloc`, every block freed is a body block of the source and is freed through the
+*source's* allocator; the source keeps its allocator and its constructor blocks, is empty afterwards and stays an
+ordinary (not null) object; no third object changes.
+*Partial*: the contents of the target are whatever layout `lay` the element-wise insertion produced (a parameter of
+the model: the insertion algorithms belong to C01 / C02 / C05); that this layout holds exactly the source's
+elements — the remaining conjunct of `C14_unequal_move_elementwise` — is checked on every run by the harness's
+reference-contents oracle, not proved here. -/
+theorem C14_unequal_move_elementwise_partial (cfg : Cfg) {w w1 : World} {evs : List Ev} (wf : WF w) (j i : Nat)
+    (a ai : Mgr) (lay : Lay) (keep : Nat) (ci : Cont) (hi : w.objs i = some ci) (hm : ci.mgr = some ai) (hne : ai ≠ a)
+    (h : step cfg w (.wMoveCtorA j i a lay keep) = some (w1, evs)) :
+    evs.filter isXfer = xferEvs cfg.k (contents w.heap ci) ∧
+    (evs.filter isXfer).length = (contents w.heap ci).length ∧
+    (cfg.k.movable = true → ∀ e, Ev.copy e ∉ evs) ∧
+    (∃ t, w1.objs j = some t ∧ t.mgr = some a ∧ usable cfg.k t = true ∧
+        contents w1.heap t = lay.inl ++ lay.cells.flatten ∧ (∀ h ∈ t.owned, w.heap.next ≤ h)) ∧
+    (∃ ci', w1.objs i = some ci' ∧ ci'.mgr = some ai ∧ ci'.aux = ci.aux ∧ contents w1.heap ci' = []) ∧
+    (∀ m h, Ev.alloc m h ∈ evs → m = a ∧ w.heap.next ≤ h) ∧
+    (∀ m h, Ev.free m h ∈ evs → m = ai ∧ h ∈ ci.body) ∧
+    (∀ x c, x ≠ i → x ≠ j → w.objs x = some c → w1.objs x = some c ∧ contents w1.heap c = contents w.heap c) ∧
+    WF w1 := by
+  have hal : allocOf w i = some ai := by simp [allocOf, hi, hm]
+  simp only [step, expand, createFrom, hal, hne, if_false] at h
+  obtain ⟨wf1, _, _, ht, ⟨ci', hc1, hc2, hc3, _, hc5⟩, hoth, hcon, hx, hA, hF⟩ :=
+    xferUnequal_spec cfg.k wf j i a ai lay keep ci hi hm h
+  refine ⟨hx, by rw [hx]; simp [xferEvs], ?_, ht, ⟨ci', hc1, hc2, hc3, hc5⟩, hA, hF, ?_, wf1⟩
+  · intro hmv e he
+    have : Ev.copy e ∈ evs.filter isXfer := List.mem_filter.mpr ⟨he, rfl⟩
+    rw [hx] at this
+    obtain ⟨x, _, hxe⟩ := List.mem_map.mp this
+    simp [hmv] at hxe
+  · intro x c hxi hxj hc
+    exact ⟨(hoth x hxi hxj).trans hc, hcon x c hxi hxj hc⟩
+
+/-- **"freeing through the manager"**: the destructor of an object gives back every block the object owns, each
+exactly once, and each *through the manager that allocated it* (the heap remembers the allocating manager of every
+block); afterwards none of these blocks is live, no other block is touched. -/
+theorem C14_destroy_frees_through_allocator (cfg : Cfg) {w w1 : World} {evs : List Ev} (wf : WF w) (i : Nat) (c : Cont)
+    (m : Mgr) (hi : w.objs i = some c) (hm : c.mgr = some m) (h : step cfg w (.destroy i) = some (w1, evs)) :
+    evs.filterMap (fun e => match e with | .free m' h' => some (m', h') | _ => none) = c.owned.map (fun h' => (m, h')) ∧
+    c.owned.Nodup ∧
+    (∀ h' ∈ c.owned, ∃ cell, w.heap.get h' = some cell ∧ cell.mgr = m) ∧
+    (∀ h' ∈ c.owned, w1.heap.get h' = none) ∧ (∀ h', h' ∉ c.owned → w1.heap.get h' = w.heap.get h') ∧
+    (∀ m' h', Ev.alloc m' h' ∉ evs) := by
+  simp only [step, expand, run_single] at h
+  obtain ⟨rfl, rfl⟩ := destroy_some_inv hi hm h
+  have ok := wf.ok i c hi
+  refine ⟨?_, ok.nodup, ?_, ?_, ?_, ?_⟩
+  · rw [List.filterMap_append]
+    have h1 : (destroyEvs cfg.k (contents w.heap c)).filterMap
+        (fun e => match e with | .free m' h' => some (m', h') | _ => none) = [] := by
+      apply List.filterMap_eq_nil_iff.mpr
+      intro e he; obtain ⟨x, rfl⟩ := mem_destroyEvs he; rfl
+    rw [h1, List.nil_append, List.filterMap_map]
+    induction c.owned with
+    | nil => rfl
+    | cons a r ih => simp [ih]
+  · intro h' hh
+    obtain ⟨cell, hg, hmm⟩ := ok.live h' hh
+    rw [hm] at hmm; cases hmm
+    exact ⟨cell, hg, rfl⟩
+  · intro h' hh; show (freeCells c.owned w.heap).get h' = none
+    rw [freeCells_get]; simp [hh]
+  · intro h' hh; show (freeCells c.owned w.heap).get h' = _
+    rw [freeCells_get]; simp [hh]
+  · intro m' h' he
+    rcases List.mem_append.mp he with he | he
+    · obtain ⟨x, hx⟩ := mem_destroyEvs he; cases hx
+    · simp at he
+
+/-- full statement of the element-wise clause for move assignment: when the standard's table says *element-wise*,
+`i` ends up with `j`'s elements -/
+def C14_wrapper_move_assign_elementwise : Prop :=
+  ∀ (cfg : Cfg) (w w1 : World) (evs : List Ev) (i j : Nat) (ci cj : Cont) (mi mj : Mgr) (lay : Lay) (keep : Nat),
+    WF w → i ≠ j → w.objs i = some ci → w.objs j = some cj → ci.mgr = some mi → cj.mgr = some mj →
+    (cfg.isEmpty = true → mi = mj) →
+    (stdMoveAssign ⟨cfg.pocca, cfg.pocma, cfg.pocs, cfg.isEmpty⟩ mi mj).how = .elementwise →
+    step cfg w (.wMoveAssign i j lay keep) = some (w1, evs) →
+    ∃ t, w1.objs i = some t ∧ (contents w1.heap t).Perm (contents w.heap cj)
+
+/-- **wrapper move assignment `i = std::move(j)`**, every trait combination and every pair of allocator identities
+(`o` = the row of the standard's table): the world stays well-formed; when the table says *steal* (POCMA, or equal
+allocators) `i` becomes exactly the former `j` — whose manager is the tabled one —, `j` is left in the null state,
+nothing is allocated, no movable element is copy-constructed and only `i`'s former blocks are released, through the
+allocator `i` had; when the table says *element-wise* (no propagation, unequal allocators) `i` ends as a usable
+object with the tabled allocator (its own) whose blocks are all new, `j` keeps its allocator and its constructor
+blocks and is empty but not null, the element constructions start with exactly one per element of `j` in `j`'s
+iteration order (`rest`: relocation of an `Array`'s internal items when the temporary is handed to `*this`), no
+movable element is copy-constructed, every allocation goes through the tabled allocator, and every block freed is
+a body block of `j` freed through `j`'s allocator or a former block of `i` freed through `i`'s: **no block changes
+owner**. No third object changes.
+*Partial* in the same way as `C14_unequal_move_elementwise_partial`: in the element-wise case the contents of `i` are
+the reported layout `lay`; `C14_wrapper_move_assign_elementwise` (they are `j`'s elements) is checked at run time only. -/
+theorem C14_wrapper_move_assign_partial (cfg : Cfg) {w w1 : World} {evs : List Ev} (wf : WF w) (i j : Nat) (hij : i ≠ j)
+    (ci cj : Cont) (mi mj : Mgr) (hi : w.objs i = some ci) (hj : w.objs j = some cj)
+    (hmi : ci.mgr = some mi) (hmj : cj.mgr = some mj) (he : cfg.isEmpty = true → mi = mj) (lay : Lay) (keep : Nat)
+    (h : step cfg w (.wMoveAssign i j lay keep) = some (w1, evs)) :
+    WF w1 ∧
+    ((stdMoveAssign ⟨cfg.pocca, cfg.pocma, cfg.pocs, cfg.isEmpty⟩ mi mj).how = .steal →
+      w1.objs i = some cj ∧ cj.mgr = some (stdMoveAssign ⟨cfg.pocca, cfg.pocma, cfg.pocs, cfg.isEmpty⟩ mi mj).alloc ∧
+      contents w1.heap cj = contents w.heap cj ∧ w1.objs j = some (nullOf cfg.k cj) ∧
+      (cfg.k.movable = true → ∀ e, Ev.copy e ∉ evs) ∧ (∀ m h, Ev.alloc m h ∉ evs) ∧
+      (∀ m h, Ev.free m h ∈ evs → m = mi ∧ h ∈ ci.owned)) ∧
+    ((stdMoveAssign ⟨cfg.pocca, cfg.pocma, cfg.pocs, cfg.isEmpty⟩ mi mj).how = .elementwise →
+      (∃ t, w1.objs i = some t ∧
+          t.mgr = some (stdMoveAssign ⟨cfg.pocca, cfg.pocma, cfg.pocs, cfg.isEmpty⟩ mi mj).alloc ∧
+          usable cfg.k t = true ∧ contents w1.heap t = lay.inl ++ lay.cells.flatten ∧
+          (∀ h ∈ t.owned, w.heap.next ≤ h)) ∧
+      (∃ cj', w1.objs j = some cj' ∧ cj'.mgr = some mj ∧ cj'.aux = cj.aux ∧ contents w1.heap cj' = []) ∧
+      (∃ rest, evs.filter isXfer = xferEvs cfg.k (contents w.heap cj) ++ rest) ∧
+      (cfg.k.movable = true → ∀ e, Ev.copy e ∉ evs) ∧
+      (∀ m h, Ev.alloc m h ∈ evs →
+          m = (stdMoveAssign ⟨cfg.pocca, cfg.pocma, cfg.pocs, cfg.isEmpty⟩ mi mj).alloc ∧ w.heap.next ≤ h) ∧
+      (∀ m h, Ev.free m h ∈ evs → (m = mj ∧ h ∈ cj.body) ∨ (m = mi ∧ h ∈ ci.owned))) ∧
+    (stdMoveAssign ⟨cfg.pocca, cfg.pocma, cfg.pocs, cfg.isEmpty⟩ mi mj).how ≠ .copyAll ∧
+    (∀ x c, x ≠ i → x ≠ j → x ≠ tmpT cfg → w.objs x = some c →
+        w1.objs x = some c ∧ contents w1.heap c = contents w.heap c) := by
+  have htab := (C14_propagation_table ⟨cfg.pocca, cfg.pocma, cfg.pocs, cfg.isEmpty⟩ mi mj he).2.1
+  obtain ⟨g0, g1, g2, g3⟩ := wMoveAssign_spec cfg wf i j hij ci cj mi mj hi hj hmi hmj lay keep _ rfl h
+  rw [← htab]
+  simp only [momoMoveAssign] at *
+  refine ⟨g0, ?_, ?_, ?_, g3⟩
+  · intro hs
+    by_cases hst : mj = if (cfg.isEmpty || cfg.pocma) = true then mj else mi
+    · obtain ⟨q1, q2, q3, q4, q5, q6⟩ := g1 hst
+      exact ⟨q1, by rw [hmj, ← hst], q2, q3, q4, q5, q6⟩
+    · rw [if_neg hst] at hs; cases hs
+  · intro hs
+    by_cases hst : mj = if (cfg.isEmpty || cfg.pocma) = true then mj else mi
+    · rw [if_pos hst] at hs; cases hs
+    · exact g2 hst
+  · by_cases hq : mj = if (cfg.isEmpty || cfg.pocma) = true then mj else mi
+    · rw [if_pos hq]; exact fun e => How.noConfusion e
+    · rw [if_neg hq]; exact fun e => How.noConfusion e
+
+/-- known finding F15, as the model shows it: `operator=` of a stdish wrapper whose crew pointer is null (moved-from
+set / map / unordered_*) evaluates `get_allocator()` of `*this` when the allocator does not propagate on that
+assignment — the operation is **undefined** in the model (the driver answers `crash`, and so does the library).
+Hence "assignable" holds for moved-from wrappers only when the allocator propagates (or is empty); the native
+containers are covered unconditionally by `C14_null_copy_assign` / `C14_null_move_assign`. -/
+theorem C14_F15_wrapper_assign_undefined (cfg : Cfg) (w : World) (i j : Nat) (ci : Cont) (hij : i ≠ j)
+    (hi : w.objs i = some ci) (hm : ci.mgr = none) (lay : Lay) (keep : Nat) :
+    ((cfg.isEmpty || cfg.pocca) = false → step cfg w (.wCopyAssign i j) = none) ∧
+    ((cfg.isEmpty || cfg.pocma) = false → step cfg w (.wMoveAssign i j lay keep) = none) :=
+  ⟨fun hp => wCopyAssign_null_crash cfg w i j ci hij hi hm hp,
+   fun hp => wMoveAssign_null_crash cfg w i j ci hij hi hm hp lay keep⟩
+
+/-! ## (e) histories -/
+
+/-- **history theorem**: for every configuration and every finite list of operations (constructions, copies, moves,
+swaps, assignments of both kinds, wrapper operations, Clear, arbitrary mutations, destructions, in any order, on any
+slots) that is defined from the initial world, the resulting world is well-formed: every handle an object holds
+refers to a live block (no dangling pointer), that block was allocated by the manager the object holds *now* (so it
+will be freed through the manager that allocated it), no object holds a block twice (no double free), and no two
+objects share a block (deep copies, stealing moves). -/
+theorem C14_history (cfg : Cfg) (ops : List Op) (w : World) (h : runOps cfg World.init ops = some w) : WF w :=
+  (runOps_sound cfg WF.init ops h).1
+
+/-- `C14_history`, spelled out -/
+theorem C14_history_ownership (cfg : Cfg) (ops : List Op) (w : World) (h : runOps cfg World.init ops = some w) :
+    (∀ i c, w.objs i = some c → c.owned.Nodup ∧
+        ∀ b ∈ c.owned, ∃ cell, w.heap.get b = some cell ∧ c.mgr = some cell.mgr) ∧
+    (∀ i j c d, i ≠ j → w.objs i = some c → w.objs j = some d → ∀ b, b ∈ c.owned → b ∉ d.owned) := by
+  have wf := C14_history cfg ops w h
+  exact ⟨fun i c hc => ⟨(wf.ok i c hc).nodup, (wf.ok i c hc).live⟩, wf.disj⟩
+
+/-- **history theorem for the managers' ledger** ("each container keeps … freeing through the manager"): for every
+configuration and every finite list of operations defined from the initial world, the *whole trace* of manager
+events passes the ledger check the harness applies to the real managers — every `Allocate` hands out a block that
+is not live, every `Deallocate` gives back a live block *to the manager identity that allocated it* (hence never
+twice, never a foreign or unknown block) — and the blocks live at the end, with their allocating managers, are
+exactly those of the final heap. -/
+theorem C14_history_ledger (cfg : Cfg) (ops : List Op) (w : World) (evs : List Ev)
+    (h : runOpsEv cfg World.init ops = some (w, evs)) :
+    WF w ∧ ledgerRun (fun _ => none) evs = some (ownerOf w.heap) := by
+  have := runOpsEv_ledger cfg WF.init ops h
+  rwa [show ownerOf World.init.heap = fun _ => none from ownerOf_empty] at this
+
+/-- **nothing is left behind**: in every reachable world each live block is owned by a live object (exactly one, by
+`C14_history`); so once all objects have been destroyed no block is live — the ledger of `C14_history_ledger` is
+empty, whatever mixture of copies, moves, swaps and assignments between whatever managers went before. -/
+theorem C14_history_no_leak (cfg : Cfg) (ops : List Op) (w : World) (h : runOps cfg World.init ops = some w) :
+    (∀ b cell, w.heap.get b = some cell → ∃ i c, w.objs i = some c ∧ b ∈ c.owned) ∧
+    ((∀ i, w.objs i = none) → ∀ b, w.heap.get b = none ∧ ownerOf w.heap b = none) := by
+  have tt := runOps_tight cfg WF.init Tight.init ops h
+  refine ⟨tt, fun hdead b => ?_⟩
+  have hb : w.heap.get b = none := by
+    cases hg : w.heap.get b with
+    | none => rfl
+    | some cell =>
+      obtain ⟨i, c, hc, _⟩ := tt b cell hg
+      rw [hdead i] at hc; cases hc
+  exact ⟨hb, by simp [ownerOf, hb]⟩
+
+/-- the hypothesis `RebuildOk` holds for the copy layouts of every driven container kind: one block (Array,
+HashSet / HashMap / HashMultiMap, DataTable), node by node (TreeSet / TreeMap), pointer array + full segments
+(SegmentedArray, for every segment-size function) -/
+theorem C14_rebuild_layouts (k : Kind) :
+    (k.rebuild = rebuildOne → RebuildOk k) ∧ (k.rebuild = rebuildSame → RebuildOk k) ∧
+    (∀ sizes, k.rebuild = rebuildSeg sizes → RebuildOk k) :=
+  ⟨rebuildOk_one k, rebuildOk_same k, fun sizes => rebuildOk_seg k sizes⟩
+
+/-! ## non-vacuity: concrete worlds with several containers and a stateful manager -/
+
+/-- a HashSet-like kind (crew pointer, one-block copy layout), stateful manager whose copy constructor adds 100 to
+the identity (as `select_on_container_copy_construction` of the harness's allocator), POCMA only -/
+def exCfg : Cfg := { k := { crewPtr := true, rebuild := rebuildOne }, sel := fun m => m + 100, pocma := true }
+
+/-- an `Array`-like kind with internal capacity 2 and copy-only elements -/
+def exArr : Cfg := { k := { icap := 2, arrayStyle := true, movable := false, rebuild := rebuildOne } }
+
+def exOps : List Op :=
+  [.new 0 1, .mutate 0 [] [[1, 2], [3]] 0, .new 1 2, .mutate 1 [] [[7]] 0, .copyCtor 2 0, .moveAssign 1 0,
+   .wMoveCtorA 3 2 5 ⟨[], [[3, 2, 1]], 0⟩ 0, .swap 1 3, .destroy 0]
+
+/-- (manager, contents) of the slots 0..3 -/
+def exSummary (w : World) : List (Option (Option Mgr × List Elem)) :=
+  (List.range 4).map (fun i => (w.objs i).map (fun c => (c.mgr, contents w.heap c)))
+
+example : RebuildOk exCfg.k := rebuildOk_one _ rfl
+example : RebuildOk exArr.k := rebuildOk_one _ rfl
+
+/-- the history is defined: two sets with managers 1 and 2 are filled; 0 is copied into 2 (manager 101); 1 takes over
+0 (0 is left with a null crew); 2 is moved into 3 under the unequal allocator 5, element by element; 1 and 3 are
+swapped; the moved-from 0 is destroyed -/
+example : (runOps exCfg World.init exOps).map exSummary =
+    some [none, some (some 5, [3, 2, 1]), some (some 101, []), some (some 1, [1, 2, 3])] := by decide
+
+/-- hypotheses of `C14_copy_ctor` / `C14_copy_independent` / `C14_copy_destroy_either`: a non-empty two-generation
+source and a second live object -/
+example : ((runOps exCfg World.init (exOps.take 4)).bind (fun w => step exCfg w (.copyCtor 2 0))).isSome = true := by decide
+
+/-- hypotheses of `C14_unequal_move_elementwise_partial`: source with manager 101 and three elements, target
+allocator 5; exactly three element moves, no copy -/
+example : ((runOps exCfg World.init (exOps.take 6)).bind
+    (fun w => (step exCfg w (.wMoveCtorA 3 2 5 ⟨[], [[3, 2, 1]], 0⟩ 0)).map (fun r => r.2.filter isXfer))) =
+    some [Ev.move 1, Ev.move 2, Ev.move 3] := by decide
+
+/-- hypotheses of the `C14_null_*` theorems: after `1 = std::move(0)` object 0 is alive, in the null state, with a
+null crew pointer; and F15: wrapper copy assignment to it is undefined when POCCA = false -/
+example : ((runOps exCfg World.init (exOps.take 6)).map
+    (fun w => (w.objs 0).map (fun c => (c.mgr.isNone, c.owned.isEmpty, c.inl.isEmpty)))) =
+    some (some (true, true, true)) := by decide
+example : ((runOps exCfg World.init (exOps.take 6)).map
+    (fun w => ((step exCfg w (.wCopyAssign 0 1)).isSome, (step exCfg w (.copyAssign 0 1)).isSome))) =
+    some (false, true) := by decide
+
+/-- the ledger accepts the whole event trace of the example history, and one block-owning object of each of the
+managers 1, 5, 101 is left -/
+example : ((runOpsEv exCfg World.init exOps).bind (fun r => (ledgerRun (fun _ => none) r.2).map
+    (fun L => (List.range 40).filterMap L))).map (fun l => (l.length, l.contains 1, l.contains 5, l.contains 101, l.contains 2)) =
+    some (6, true, true, true, false) := by decide
+
+/-- `Array` with items in the internal buffer: moving relocates them (copy-only elements: by copy + destroy), the
+moved-from array is reusable at once -/
+example : (runOps exArr World.init
+    [.new 0 1, .mutate 0 [4, 5] [] 0, .moveCtor 1 0, .mutate 0 [] [[6, 7, 8]] 3, .copyAssign 1 0, .swap 0 1]).map exSummary =
+    some [some (some 1, [6, 7, 8]), some (some 1, [6, 7, 8]), none, none] := by decide
+
+end Momo.Val
